@@ -36,12 +36,15 @@ def mk_converter(it, nshanks=2, fp_err=False):
     ns, napch, W = z3.Ints("ns napch W")
     it.ctx.assume(z3.And(ns >= 2 * TAPER, napch >= 1, W > OVERLAP, W % RATIO == 0))
     nc = napch + 1
-    raw = A.fresh_array("raw", "int16", (ns, nc))
+    # init_params(nsamples=...) may restrict processing to the first `ns` samples of a longer file (ns_file >= ns; default: the whole file)
+    ns_file = z3.Int("ns_file")
+    it.ctx.assume(ns_file >= ns)
+    raw = A.fresh_array("raw", "int16", (ns_file, nc))
     s2v_val = z3.Real("s2v")
     it.ctx.assume(s2v_val > 0)
     # C09: AP channels share range/maxint/80, sync factor is 1
     s2v = SArr(np.float32, (nc,), lambda idx: z3.If(idx[0] < napch, s2v_val, z3.RealVal(1)))
-    meta = {"typeThis": "imec", "snsApLfSy": [SV(z3.ToReal(napch)), 0.0, 1.0], "nSavedChans": SV(z3.ToReal(nc)), "imSampRate": 30000.0, "fileTimeSecs": SV(z3.ToReal(ns) / 30000)}
+    meta = {"typeThis": "imec", "snsApLfSy": [SV(z3.ToReal(napch)), 0.0, 1.0], "nSavedChans": SV(z3.ToReal(nc)), "imSampRate": 30000.0, "fileTimeSecs": SV(z3.ToReal(ns_file) / 30000)}
     order = A.arange(0, SV(nc))
     sr = SObj(spikeglx.Reader, _raw=raw, raw_channel_order=order, channel_conversion_sample2v={"ap": s2v, "lf": s2v}, meta=meta)
     shank_info = {}
@@ -64,7 +67,7 @@ def mk_converter(it, nshanks=2, fp_err=False):
                 taper=taper, sos_lp=sos, napch=SV(napch), idxsyncch=SV(napch), shank_info=shank_info, fs_ap=30000, fs_lf=2500, np_version="NP2.4")
     it.session.contracts[scipy.signal.sosfiltfilt] = sosfiltfilt_summary
     it.session.contracts[C17.FIRSTLAST] = firstlast_summary_with_nwin
-    return conv, dict(ns=ns, napch=napch, W=W, nc=nc, raw=raw, s2v=s2v_val, chns=chns, shank_info=shank_info, sr=sr)
+    return conv, dict(ns=ns, ns_file=ns_file, napch=napch, W=W, nc=nc, raw=raw, s2v=s2v_val, chns=chns, shank_info=shank_info, sr=sr)
 
 
 def firstlast_summary_with_nwin(it, args, kwargs):
